@@ -48,7 +48,7 @@ def run(ck: Check) -> None:
         env = gen.envelope(payload)
         if rng.random() < 0.5:
             gen.sign_env(env, rng.sample(ks, rng.randint(0, len(ks))), rng.random() < 0.5, rng)
-        ops = [rng.choice(["write", "load", "sign-raw", "sign-gpg", "write", "load"]) for _ in range(rng.randint(3, 10))]
+        ops = [rng.choice(["write", "load", "sign-raw", "sign-gpg", "write", "load", "retype-write"]) for _ in range(rng.randint(3, 10))]
         mem = copy.deepcopy(env)
         on_disk = False
         added = 0
@@ -67,6 +67,33 @@ def run(ck: Check) -> None:
                         ok = False
                     ser_cases.append(Case("ser", [mem], tag="file-bytes", group=i))
                     ser_expect.append(b)
+                if op == "retype-write":
+                    # the value changes to one Python's == cannot tell apart (1 / 1.0 / True, 0.0 / -0.0) but JSON can: the file must follow
+                    def retype(v):
+                        if isinstance(v, dict):
+                            return {k: retype(x) for k, x in v.items()}
+                        if isinstance(v, list):
+                            return [retype(x) for x in v]
+                        if v is True:
+                            return 1
+                        if v is False:
+                            return 0
+                        if isinstance(v, int) and abs(v) < 2**53:
+                            return float(v)
+                        if isinstance(v, float) and v == v and abs(v) < 2**53 and v == int(v):
+                            return int(v) if repr(v) != "-0.0" else 0.0
+                        return v
+                    mem = {"signatures": mem["signatures"], "signed": retype(mem["signed"])}
+                    env = copy.deepcopy(mem)
+                    impl.common.write_metadata_to_file(mem, fn)
+                    b = open(fn, "rb").read()
+                    ck.oracle_checks += 1
+                    if b != gen.oracle_bytes(mem):
+                        ck.violation("writing a changed value (1 -> 1.0, True -> 1, ...) left the file with the old contents / a non-canonical file", {"value": proto.enc(mem)[:800]}, "retype-write-stale")
+                        ok = False
+                    ck.evaluations += 1
+                    ck.count("fileop:" + op)
+                    continue
                 if op == "load":
                     mem2 = impl.common.load_metadata_from_file(fn)
                     ck.oracle_checks += 1
